@@ -328,6 +328,12 @@ where
         Err(_) => return Err(Error::ClientBadStartup),
     };
 
+    // The length counts itself and the 4 byte request code; nobody is authenticated
+    // yet, so do not allocate more than PostgreSQL would for a startup packet.
+    if !(8..=MAX_STARTUP_PACKET_LENGTH).contains(&len) {
+        return Err(Error::ClientBadStartup);
+    }
+
     // Get the rest of the message.
     let mut startup = vec![0u8; len as usize - 4];
     match stream.read_exact(&mut startup).await {
@@ -523,6 +529,13 @@ where
                         }
                     };
 
+                    if !(4..=MAX_PASSWORD_MESSAGE_LENGTH).contains(&len) {
+                        return Err(Error::ProtocolSyncError(format!(
+                            "Invalid password message length {}",
+                            len
+                        )));
+                    }
+
                     let mut password_response = vec![0u8; (len - 4) as usize];
 
                     match read.read_exact(&mut password_response).await {
@@ -613,6 +626,13 @@ where
                             ))
                         }
                     };
+
+                    if !(4..=MAX_PASSWORD_MESSAGE_LENGTH).contains(&len) {
+                        return Err(Error::ProtocolSyncError(format!(
+                            "Invalid password message length {}",
+                            len
+                        )));
+                    }
 
                     let mut password_response = vec![0u8; (len - 4) as usize];
 
